@@ -724,9 +724,36 @@ def native_replay(unit: str, obligation: str, model: dict) -> tuple[bool, str]:
         return got != at, f"activation type {at} is sent as {got:#x}"
     if unit.startswith("framing/"):
         return native_segmentation()
+    if unit == "write/routing" or obligation.startswith("C-activation-type"):
+        return native_activation_types()
     if unit.startswith("demux-scripted/"):
         return native_scripted(unit.split("/")[1])
     return False, "no native replay for this obligation"
+
+
+def native_activation_types() -> tuple[bool, str]:
+    """The routing activation request on the wire carries the requested activation type, for all
+    256 values (connection level and transport level)."""
+    d = D()
+
+    async def go() -> tuple[bool, str]:
+        wrong = []
+        for at in range(256):
+            r = asyncio.StreamReader()
+            w = FakeWriter()
+            conn = d.DoIPConnection(r, w, 0x0E00, 0x1D, 3)  # type: ignore[arg-type]
+            try:
+                await asyncio.wait_for(conn.write_routing_activation_request(at), 0.01)
+            except Exception:  # noqa: BLE001
+                pass
+            conn._read_task.cancel()
+            if len(w.data) < 11 or w.data[10] != at:
+                wrong.append((at, w.data.hex()))
+        if wrong:
+            return True, (f"{len(wrong)} of 256 activation types are not sent as given, e.g. type "
+                          f"{wrong[0][0]:#04x} -> frame {wrong[0][1]}")
+        return False, "all 256 activation types reach the wire unchanged"
+    return asyncio.run(go())
 
 
 def native_scripted(which: str) -> tuple[bool, str]:
